@@ -263,7 +263,14 @@ where
             hs.push(
                 std::thread::Builder::new()
                     .stack_size(256 << 20)
-                    .spawn_scoped(sc, move || shard_loop(&ctx, &sub, shard, per, mk, test, render, shared))
+                    .spawn_scoped(sc, move || match guarded(|| shard_loop(&ctx, &sub, shard, per, mk, test, render, shared)) {
+                        Ok(r) => r,
+                        Err((loc, msg)) => {
+                            let mut r = SubReport::new(&sub);
+                            r.inconclusive.push(format!("{}: harness panic in shard {} at {}: {}", sub, shard, loc, msg));
+                            r
+                        }
+                    })
                     .unwrap(),
             );
         }
@@ -313,7 +320,7 @@ where
             failure_persistence: None,
             rng_algorithm: RngAlgorithm::ChaCha,
             rng_seed: RngSeed::Fixed(seed),
-            max_shrink_iters: 4000,
+            max_shrink_iters: 200_000,
             max_global_rejects: 1 << 30,
             max_local_rejects: 1 << 20,
             ..Config::default()
@@ -322,6 +329,9 @@ where
         let mut runner = TestRunner::new(cfg);
         // statistics are collected only until the first failure of this round
         let failed = RefCell::new(false);
+        // while shrinking, only failures with the signature of the first failure count, so
+        // the minimal case belongs to the same root cause
+        let first_sig: RefCell<Option<String>> = RefCell::new(None);
         let stats = RefCell::new(SubReport::new(sub));
         let ignore_snapshot: BTreeSet<String> = shared.ignore.lock().unwrap().clone();
         let result = runner.run(&strat, |v| {
@@ -350,6 +360,17 @@ where
                         }
                         Ok(())
                     } else {
+                        let mut fs = first_sig.borrow_mut();
+                        match &*fs {
+                            None => {
+                                *fs = Some(f.signature.clone());
+                            }
+                            Some(sig) => {
+                                if *sig != f.signature {
+                                    return Ok(());
+                                }
+                            }
+                        }
                         *failed.borrow_mut() = true;
                         Err(TestCaseError::fail(f.signature))
                     }
@@ -420,7 +441,9 @@ pub fn par_map(ctx: &Ctx, sub: &str, n: u64, work: impl Fn(u64, &mut SubReport) 
                             if i >= n {
                                 break;
                             }
-                            work(i, &mut rep);
+                            if let Err((loc, msg)) = guarded(|| work(i, &mut rep)) {
+                                rep.inconclusive.push(format!("{}: harness panic in work item {} at {}: {}", sub, i, loc, msg));
+                            }
                         }
                         rep
                     })
